@@ -892,6 +892,11 @@ fn gen_byz(seed: u64, prop: &str) -> Plan {
             });
         }
         b.plan.peers[p].identity = 500 + p as u64;
+        if (prop == "C01" || prop == "C12") && mix(&[seed, p as u64, 0x2005]) % 3 == 0 {
+            // (takes effect in worlds with real PoW only)
+            let ordinal = mix(&[seed, p as u64, 0x2006]) % 3;
+            b.plan.peers[p].mutations.push(MutSpec { kind: 1, ordinal, op: 2005, seed: mix(&[seed, p as u64, 0x2007]) });
+        }
         if prop == "C06" {
             // two shifted batches somewhere among the first answers (no draw from the stream)
             for j in 0..2u64 {
